@@ -69,6 +69,9 @@ func (g *Gen) funcEnv(st, old *State, res []Val) *Env {
 	for _, fv := range g.fn.FreeVars {
 		env.vars[fv.Name()] = envVar{v: g.vals[fv], deref: true}
 	}
+	for n, v := range g.ghostLets {
+		env.vars["$"+n] = envVar{v: v}
+	}
 	if res != nil {
 		rs := g.fn.Signature.Results()
 		for i := 0; i < rs.Len() && i < len(res); i++ {
@@ -1565,6 +1568,19 @@ func (g *Gen) call(c *ssa.CallCommon, pos token.Pos, isGo bool) Val {
 				}
 				g.siteHit[s] = true
 				env := g.siteEnv(ci, c, args)
+				if s.Let != "" {
+					v := env.tr(s.C.E)
+					if v.Loc != nil || len(v.Tup) > 0 || v.S == "" {
+						g.bail("site let %s: unsupported value", s.Let)
+					}
+					cst := g.declConst(g.fresh("ghostlet."+s.Let), v.S)
+					g.assume(sx("=", cst, v.T))
+					if g.ghostLets == nil {
+						g.ghostLets = map[string]Val{}
+					}
+					g.ghostLets[s.Let] = Val{T: cst, S: v.S, G: v.G}
+					continue
+				}
 				if s.Assume {
 					g.assume(env.boolOf(s.C.E))
 					g.assumed = appendUniq(g.assumed, "assumed at a call of "+sk+" in "+shortKey(g.key)+": "+s.C.Src)
